@@ -298,7 +298,18 @@ func runC14(rep Rep, w World) {
 	}
 }
 
-var c14Opts = func() worldOpts { o := histOpts; o.forceParallel = true; o.constructed = 8; return o }()
+var c14Opts = func() worldOpts {
+	o := histOpts
+	o.forceParallel = true
+	o.constructed = 8
+	w := opWeights{}
+	for k, v := range defaultWeights {
+		w[k] = v
+	}
+	w[OpClaimTerminating] = 1
+	o.weights = w
+	return o
+}()
 
 func TestC14(t *testing.T) {
 	checkCases(t, "C14", func(rt *rapid.T) World { return genWorld(rt, c14Opts) }, runC14)
